@@ -24,7 +24,7 @@ def scopes(chk):
     quick = chk.tier == 'quick'
     sc = c01.scopes(chk)
     sc.append(('defs', {'Budget': 3 if quick else 4, 'TextPool': ['a', ' ', '['], 'ComPool': [], 'MathKinds': ['$'], 'MEnvNames': [],
-                        'VerbNames': [], 'Leaves': [D.DEF_LEAF, D.DEF_LEAF2, D.DEF_LEAF3, D.DEF_LEAF4, D.leaf_cmd('def', ('{', 'a'), ('{', 'b')), D.leaf_cmd('section', ('{', 't')), D.leaf_cmd('section', ('[', 's'), ('{', 't')),
+                        'VerbNames': [], 'Leaves': D.DEF_LEAVES + [D.leaf_cmd('def', ('{', 'a'), ('{', 'b')), D.leaf_cmd('section', ('{', 't')), D.leaf_cmd('section', ('[', 's'), ('{', 't')),
                                                    D.leaf_cmd('textbf', ('{', 'b')), D.leaf_cmd('label', ('{', 'k')), 'Cmd(%s, <<>>)' % D.S('noindent')],
                         'ListNames': ['itemize'], 'MaxSib': 3}))
     return sc
